@@ -67,9 +67,19 @@ SLOW_IMPL_S = 20
 SLOW_MODEL_S = 3
 
 
-def _canon(rsmi, be):
+def _canon(rsmi, be, opts=None):
     from synkit.Chem.Reaction.canon_rsmi import CanonRSMI
-    return CanonRSMI(backend=be).canonicalise(rsmi)
+    return CanonRSMI(backend=be, **_ctor_opts(opts)).canonicalise(rsmi)
+
+
+def _ctor_opts(opts):
+    kw = {}
+    if opts:
+        if "wl_iterations" in opts:
+            kw["wl_iterations"] = opts["wl_iterations"]
+        if "node_attrs" in opts:
+            kw["node_attrs"] = list(opts["node_attrs"])
+    return kw
 
 
 def _raw_graphs(rsmi):
@@ -90,7 +100,7 @@ def _impl_canon(case):
     from synkit.Chem.Reaction.canon_rsmi import CanonRSMI
     if _raw_graphs(case["rsmi"]) is None:
         return ["unparsable"]
-    c = CanonRSMI(backend=case["backend"])
+    c = CanonRSMI(backend=case["backend"], **_ctor_opts(case.get("opts")))
     try:
         _with_alarm(SLOW_IMPL_S, c.canonicalise, case["rsmi"])
     except _Slow:
@@ -338,7 +348,7 @@ def impl(case):
     if k.startswith("bal-"):
         return _impl_bal(case)
     if k == "std":
-        return [_fit(case["rsmi"])] + [_fit(v) for _, v in case.get("variants", [])]
+        return [_std_all(case["rsmi"])] + [_std_all(v) for _, v in case.get("variants", [])]
     if k == "norm":
         return _norm_run(case["rsmi"])
     raise AssertionError(k)
@@ -384,22 +394,8 @@ def coq_case(case):
         return "L [%s]" % "; ".join(t for _, t in ts)
     try:
         if k.startswith("canon-"):
-            gh = _raw_graphs(case["rsmi"])
-            if gh is None or not _ascii_elems(*gh):
-                return None
-            g, h = E.from_nx(gh[0]), E.from_nx(gh[1])
-            if case["backend"] == "wl":
-                r = _wl_ranks(gh[0])
-                ranks = "[" + "; ".join("(%s, %s)" % (E.cN(n), E.cZ(r[n])) for n, _ in g["nodes"]) + "]"
-                return "run_canon_wl %s %s %s" % (ranks, E.coq_mgraph(g), E.coq_mgraph(h))
-            if len(g["nodes"]) > NAUTY_MAX_ATOMS:
-                return None
-            try:        # the model mirrors the search: skip the graphs on which the search itself is slow
-                from synkit.Graph.canon_graph import GraphCanonicaliser
-                _with_alarm(SLOW_MODEL_S, GraphCanonicaliser(backend="nauty")._canon_nauty, gh[0])
-            except _Slow:
-                return None
-            return "run_canon_nauty %s %s" % (E.coq_mgraph(g), E.coq_mgraph(h))
+            o = case.get("opts") or {}
+            return _canon_term(case["rsmi"], case["backend"], o.get("wl_iterations", 3), tuple(o.get("node_attrs", DEFAULT_ATTRS)))
         if k.startswith("valid-"):
             gs = [_valid_graphs(case["mapped"]), _valid_graphs(case["truth"])]
             if gs[0] is None or gs[1] is None:
@@ -431,7 +427,7 @@ def _sides_unmapped(rsmi):
 
 
 def _oracle_canon(case):
-    r, be = case["rsmi"], case["backend"]
+    r, be, opts = case["rsmi"], case["backend"], case.get("opts")
     if r.count(">>") != 1:
         return []
     I_in = G9.ref_its(r)
@@ -446,7 +442,7 @@ def _oracle_canon(case):
             if bad or any(u == v for u, v in g.edges()):
                 fails.append(_fail("monitor-parsed", "raw %s graph of %r: node id <> atom_map or <= 0 at %r / self-loop" % (side, r, bad[:5])))
     try:
-        out = _canon(r, be).canonical_rsmi
+        out = _canon(r, be, opts).canonical_rsmi
     except _Slow:
         raise
     except Exception as e:
@@ -467,9 +463,12 @@ def _oracle_canon(case):
     # 2. same unmapped reactants and products
     if _sides_unmapped(out) != _sides_unmapped(r):
         fails.append(_fail("canon-unmapped-sides", "unmapped sides differ: in %r out %r" % (_sides_unmapped(r), _sides_unmapped(out))))
-    # 3. fixed point
+    # 3. fixed point (the property quantifies over the back-ends wl and nauty; morgan seeds every atom with a prime chosen by the
+    #    position of its id, so it is numbering dependent by construction, and generic sorts by attributes and id)
+    if be not in ("wl", "nauty"):
+        return fails
     try:
-        out2 = _canon(out, be).canonical_rsmi
+        out2 = _canon(out, be, opts).canonical_rsmi
     except _Slow:
         raise
     except Exception as e:
@@ -480,11 +479,11 @@ def _oracle_canon(case):
     if case.get("orig") and case["kind"] in ("canon-renum", "canon-reroot", "canon-frag"):
         a0 = case["orig"].split(">>")[0]
         dist = G9.all_distinguishable(a0)
-        if dist and (be != "wl" or G9.wl_colours_distinct(a0)):
+        if dist and not opts and be in ("wl", "nauty") and (be != "wl" or G9.wl_colours_distinct(a0)):
             try:
-                c0 = _canon(case["orig"], be)
+                c0 = _canon(case["orig"], be, opts)
                 out0 = c0.canonical_rsmi
-                h0, h1 = c0.canonical_hash, _canon(r, be).canonical_hash
+                h0, h1 = c0.canonical_hash, _canon(r, be, opts).canonical_hash
                 if out0 == out and h0 != h1:
                     fails.append(_fail("canon-numbering-independent", "canonical_hash differs (%r vs %r) for %r and %r" % (h1, h0, r, case["orig"])))
             except _Slow:
@@ -579,20 +578,75 @@ def _oracle_norm(case):
     return fails
 
 
+# every way of calling the standardiser: (name, callable(rsmi) -> str | None | "ValueError", keeps the map numbers?)
+def _std_modes():
+    from synkit.Chem.Reaction.standardize import Standardize
+
+    def guard(f):
+        def g(r):
+            try:
+                return f(r)
+            except ValueError:
+                return "ValueError"
+        return g
+    s = Standardize()
+    return [
+        ("fit()", guard(lambda r: Standardize().fit(r)), False),
+        ("fit(remove_aam=True, ignore_stereo=False)", guard(lambda r: s.fit(r, remove_aam=True, ignore_stereo=False)), False),
+        ("fit(remove_aam=False)", guard(lambda r: s.fit(r, remove_aam=False)), True),
+        ("fit(r, False, False)", guard(lambda r: s.fit(r, False, False)), True),
+        ("standardize_rsmi(stereo=False)", guard(lambda r: Standardize.standardize_rsmi(r, stereo=False)), True),
+        ("standardize_rsmi(r, True)", guard(lambda r: Standardize.standardize_rsmi(r, True)), True),
+    ]
+
+
+def _bare_sides(std):
+    """a standard form up to its map numbers: per side the sorted canonical SMILES of the fragments with the numbers cleared
+    (RDKit as parser / writer only; the text with numbers is written in a number-dependent atom order)"""
+    if not isinstance(std, str) or ">>" not in std:
+        return std
+    from rdkit import Chem
+    out = []
+    for side in std.split(">>"):
+        mol = Chem.MolFromSmiles(side, sanitize=False)
+        if mol is None:
+            return std
+        for a in mol.GetAtoms():
+            a.SetAtomMapNum(0)
+        try:
+            Chem.SanitizeMol(mol)
+        except Exception:
+            return std
+        out.append(sorted(Chem.MolToSmiles(mol).split(".")))
+    return out
+
+
+def _std_all(rsmi):
+    return [f(rsmi) for _, f, _ in _std_modes()]
+
+
 def _oracle_std(case):
-    base = _fit(case["rsmi"])
-    if base in (None, "ValueError"):
-        return []
+    """Standardising is idempotent and invariant under atom order, fragment order and map numbers - for EVERY way of calling
+    it.  With the map numbers kept (remove_aam=False / standardize_rsmi) the result of a renumbered input is compared up to the
+    numbers; atom order and fragment order must give the identical string."""
+    r = case["rsmi"]
     fails = []
-    again = _fit(base)
-    if again != base:
-        fails.append(_fail("standardize-idempotent", "fit(fit(r)) = %r, fit(r) = %r, r = %r" % (again, base, case["rsmi"])))
-    for how, v in case.get("variants", []):
-        fv = _fit(v)
-        if fv != base:
-            fails.append(_fail("standardize-invariant", "fit(%s variant %r) = %r but fit(%r) = %r" % (how, v, fv, case["rsmi"], base)))
+    for name, f, keeps in _std_modes():
+        base = f(r)
+        if base in (None, "ValueError"):
+            continue
+        again = f(base)
+        if again != base:
+            fails.append(_fail("standardize-idempotent", "%s: f(f(r)) = %r, f(r) = %r, r = %r" % (name, again, base, r)))
+        for how, v in case.get("variants", []):
+            fv = f(v)
+            same = (_bare_sides(fv) == _bare_sides(base)) if (keeps and how == "renum") else (fv == base)
+            if not same:
+                fails.append(_fail("standardize-invariant", "%s: %s variant %r gives %r but %r gives %r" % (name, how, v, fv, r, base)))
+                break
+        if len(fails) >= 3:
             break
-    return fails
+    return fails[:3]
 
 
 def oracle(case):
@@ -693,10 +747,55 @@ HAND_VALID = [
 ]
 
 
-def _canon_cases(how, r, orig=None, src=None, backends=BACKENDS):
+# the same species twice on one side, each copy with its own map numbers (self-condensation, dimerisation, 2:1 stoichiometry)
+REPEATED = [
+    "[CH3:1][CH:2]=[O:3].[CH3:4][CH:5]=[O:6]>>[CH3:1][CH:2]([OH:3])[CH2:4][CH:5]=[O:6]",
+    "[H:1][H:2].[H:3][H:4].[O:5]=[O:6]>>[H:1][O:5][H:2].[H:3][O:6][H:4]",
+    "[CH2:1]=[CH:2][CH:3]=[CH:4][CH3:5].[CH2:6]=[CH:7][CH:8]=[CH:9][CH3:10]>>[CH2:1]1[CH:2]=[CH:3][CH:4]([CH3:5])[CH:7]([CH:8]=[CH:9][CH3:10])[CH2:6]1",
+    "[CH3:1][OH:2].[CH3:3][OH:4].[CH2:5]=[O:6]>>[CH3:1][O:2][CH2:5][O:4][CH3:3].[OH2:6]",
+    "[CH3:1][C:2](=[O:3])[OH:4].[CH3:5][C:6](=[O:7])[OH:8]>>[CH3:1][C:2](=[O:3])[O:8][C:6](=[O:7])[CH3:5].[OH2:4]",
+    "[Na+:1].[Na+:2].[O-:3][S:4](=[O:5])(=[O:6])[O-:7]>>[Na:1][O:3][S:4](=[O:5])(=[O:6])[O:7][Na:2]",
+    "[CH3:1][C@H:2]([OH:3])[Cl:4].[CH3:5][C@H:6]([OH:7])[Cl:8]>>[CH3:1][C@H:2]([OH:3])[O:7][C@@H:6]([CH3:5])[Cl:8].[ClH:4]",
+    "[CH3:1][SH:2].[CH3:3][SH:4].[OH:5][OH:6]>>[CH3:1][S:2][S:4][CH3:3].[OH2:5].[OH2:6]",
+]
+
+
+def _all_orders(rsmi, rng, limit=6):
+    """the reaction with its fragments in other orders (all of them when few, else a PRNG sample)"""
+    import itertools
+    a, b = rsmi.split(">>")
+    fa, fb = a.split("."), b.split(".")
+    allp = [(x, y) for x in itertools.permutations(fa) for y in itertools.permutations(fb)]
+    allp = [p for p in allp if (list(p[0]), list(p[1])) != (fa, fb)]
+    if len(allp) > limit:
+        allp = rng.sample(allp, limit)
+    return [".".join(x) + ">>" + ".".join(y) for x, y in allp]
+
+
+def _std_case(r, rng, src, n_rewrites=1):
+    vs = [["frag", v] for v in _all_orders(r, rng)]
+    for how in ("renum", "reroot"):
+        for _ in range(n_rewrites):
+            try:
+                vs.append([how, R.rewrite(r, how, rng)])
+            except Exception:
+                pass
+    # fragment order AND atom order AND numbers at once
+    try:
+        w = R.reroot(R.shuffle_fragments(r, rng), rng)
+        vs.append(["frag", w])
+        vs.append(["renum", R.renumber_maps(w, rng)])
+    except Exception:
+        pass
+    return dict(kind="std", rsmi=r, variants=vs, src=src)
+
+
+def _canon_cases(how, r, orig=None, src=None, backends=BACKENDS, opts=None):
     out = []
     for be in backends:
         c = dict(kind="canon-" + how, rsmi=r, backend=be)
+        if opts:
+            c["opts"] = opts
         if orig is not None:
             c["orig"] = orig
         if src:
@@ -875,6 +974,28 @@ def gen_cases(tier, rng):
                 # a duplicated fragment makes the reactant graph highly symmetric: the pure-Python nauty search can take minutes
                 cases += _canon_cases(how, v, orig=r, src=src, backends=("wl",) if how == "dup" else (be,))
 
+    # every back-end and option value with renumbered / re-rooted / fragment-shuffled variants (equivalence, unmapped sides, fixed point
+    # for all; numbering independence is demanded for the default wl / nauty only), and reactions with a repeated species
+    OPTS = [("generic", None), ("morgan", None), ("wl", {"wl_iterations": 1}), ("wl", {"wl_iterations": 5}),
+            ("wl", {"node_attrs": ["hcount", "charge", "aromatic", "element"]}), ("wl", {"node_attrs": ["element"]}),
+            ("wl", {"node_attrs": ["element", "aromatic", "charge", "hcount", "neighbors"]}), ("nauty", {"node_attrs": ["element", "charge"]})]
+    pool = [(("hand#%d" % i), r) for i, r in enumerate(HAND_CANON[:5])] + [("repeated#%d" % i, r) for i, r in enumerate(REPEATED)]
+    pool += [("%s#%d" % (s, i), r) for s, i, r in (rng.sample(us, 2) + rng.sample(ec, 2) if q else rng.sample(corp, 60))]
+    for n_, (src, r) in enumerate(pool):
+        if src.startswith("repeated"):
+            cases += _canon_cases("corpus", r, src=src)
+            cases += _canon_cases("frag", R.shuffle_fragments(r, rng), orig=r, src=src)
+            cases.append(dict(kind="valid-renum", mapped=_rewrite(r, rng), truth=r, src=src))
+            for kind, x, y, sw in G9.centre_swaps(r, rng, per_kind=1):
+                cases.append(dict(kind="valid-swap-" + kind, mapped=sw, truth=r, x=x, y=y, src=src))
+        for be, opts in (OPTS if not q else [OPTS[(n_ + k) % len(OPTS)] for k in (0, 3)]):
+            cases += _canon_cases("corpus", r, src=src, backends=(be,), opts=opts)
+            how = ("renum", "reroot", "frag")[n_ % 3]
+            try:
+                cases += _canon_cases(how, R.rewrite(r, how, rng), orig=r, src=src, backends=(be,), opts=opts)
+            except Exception:
+                pass
+
     # corpus reactions with a product atom that has no reactant partner (a released proton): the repaired path on real data
     if q:
         for s, i, r in [x for x in ec if x[1] in (132, 186)][:1]:
@@ -914,17 +1035,13 @@ def gen_cases(tier, rng):
         for how, v in G9.unbalanced_variants(r, rng):
             cases.append(dict(kind="bal-" + how, rsmi=v, src=src))
 
-    # ---- Standardize (oracle only)
-    chosen = (rng.sample(us, 8) + rng.sample(ec, 8)) if q else corp
+    # ---- Standardize (oracle only): every way of calling it, every fragment order, repeated species
+    for i, r in enumerate(REPEATED):
+        cases.append(_std_case(r, rng, "repeated#%d" % i))
+    rep = [x for x in corp if any(c > 1 for side in _sides_unmapped(x[2]) for c in __import__("collections").Counter(side).values())]
+    chosen = (rng.sample(us, 5) + rng.sample(ec, 5) + rng.sample(rep, min(4, len(rep)))) if q else corp
     for s, i, r in chosen:
-        vs = []
-        for how in ("renum", "reroot", "frag"):
-            for _ in range(1 if q else 3):
-                try:
-                    vs.append([how, R.rewrite(r, how, rng)])
-                except Exception:
-                    pass
-        cases.append(dict(kind="std", rsmi=r, variants=vs, src="%s#%d" % (s, i)))
+        cases.append(_std_case(r, rng, "%s#%d" % (s, i), 1 if q else 2))
     # ---- FixAAM / NormalizeAAM (oracle only), also with three-digit map numbers
     chosen = (rng.sample(us, 6) + rng.sample(ec, 6)) if q else corp
     for s, i, r in chosen:
